@@ -34,3 +34,6 @@ def run(repo, res, tier):
     # the lexer's character step: total at the ends of the text, keeps every character that is not grammar white space
     from .. import lexsim as _ls
     _ls.rule_comment_kind(repo, res)
+    # inside quotes every character is kept as it is
+    from .. import lexsim as _ls9
+    _ls9.rule_preserve_kind(repo, res)
